@@ -302,3 +302,72 @@ def mouse(kind, col, row):
     """SGR (1006) mouse report; col/row 0-based."""
     b, suffix = {"down": (0, "M"), "up": (0, "m"), "drag": (32, "M"), "scrollup": (64, "M"), "scrolldown": (65, "M"), "rightdown": (2, "M"), "move": (35, "M")}[kind]
     return f"\x1b[<{b};{col + 1};{row + 1}{suffix}".encode()
+
+
+class FakeGpsd(threading.Thread):
+    """A stand-in for gpsd on 127.0.0.1:2947 (the port is fixed in radar): completes the JSON
+    handshake, then per connection either reports positions periodically, reports one and goes
+    silent, sends a line that is no JSON, or hangs up. Shared by all sessions of a run; if the
+    port is taken (another run is using it) it simply is not started."""
+
+    def __init__(self, lat=52.1, lon=4.1):
+        super().__init__(daemon=True)
+        self.lat, self.lon = lat, lon
+        self.connections = 0
+        self.sock = socket.socket(socket.AF_INET, socket.SOCK_STREAM)
+        self.sock.setsockopt(socket.SOL_SOCKET, socket.SO_REUSEADDR, 1)
+        self.ok = True
+        try:
+            self.sock.bind(("127.0.0.1", 2947))
+            self.sock.listen(16)
+        except OSError:
+            self.ok = False
+        self.stop = False
+
+    def run(self):
+        if not self.ok:
+            return
+        self.sock.settimeout(0.5)
+        while not self.stop:
+            try:
+                c, _ = self.sock.accept()
+            except OSError:
+                continue
+            self.connections += 1
+            threading.Thread(target=self._serve, args=(c, self.connections), daemon=True).start()
+        self.sock.close()
+
+    def _serve(self, c, k):
+        try:
+            c.settimeout(2.0)
+            c.sendall(b'{"class":"VERSION","release":"3.17","rev":"3.17","proto_major":3,"proto_minor":12}\r\n')
+            try:
+                c.recv(200)  # ?WATCH=...
+            except OSError:
+                pass
+            c.sendall(b'{"class":"DEVICES","devices":[{"path":"/dev/gps","activated":"2026-10-03T00:00:00.000Z"}]}\r\n')
+            c.sendall(b'{"class":"WATCH","enable":true,"json":true,"nmea":false}\r\n')
+            mode = k % 4
+            tpv = lambda i: ('{"class":"TPV","mode":3,"lat":%.6f,"lon":%.6f}\r\n' % (self.lat + 0.0005 * i, self.lon)).encode()
+            if mode == 0:
+                for i in range(200):
+                    if self.stop:
+                        break
+                    c.sendall(tpv(i))
+                    time.sleep(0.3)
+            elif mode == 1:
+                c.sendall(tpv(0))
+                time.sleep(90)  # one report, then silence
+            elif mode == 2:
+                c.sendall(b"this is not json\r\n" + tpv(1))
+                time.sleep(90)
+            else:
+                c.sendall(tpv(2))
+                time.sleep(0.5)  # hang up
+        except OSError:
+            pass
+        finally:
+            try:
+                c.close()
+            except OSError:
+                pass
